@@ -74,6 +74,23 @@ impl Builder {
             None
         };
 
+        // The spectrum has one cell per combination of per-population counts: with dozens of
+        // populations that number overflows, so refuse such a request here rather than when the
+        // spectrum is allocated
+        let shape = projection
+            .as_ref()
+            .map(|projection| projection.project_to().clone().into_shape())
+            .unwrap_or_else(|| sample_map.shape());
+        let bytes = shape
+            .iter()
+            .try_fold(std::mem::size_of::<f64>(), |acc, &n| acc.checked_mul(n));
+        if bytes.map_or(true, |bytes| bytes > isize::MAX as usize) {
+            return Err(Error::Io(io::Error::new(
+                io::ErrorKind::InvalidInput,
+                format!("spectrum with shape {shape} is too large"),
+            )));
+        }
+
         Ok(super::Reader::new_unchecked(reader, sample_map, projection))
     }
 
